@@ -383,8 +383,8 @@ def options_body(c):
 
 def subchecks(tier):
     return [
-        Sub("ode", body, strategy=lambda: case(allow_r=True), quick=400, thorough=6000, pretags=pretags),
-        Sub("constant", constant_body, strategy=lambda: case(force_m=1, allow_r=False), quick=200, thorough=4000, pretags=pretags),
-        Sub("refine", refine_body, strategy=refine_case, quick=400, thorough=5000, pretags=pretags),
-        Sub("options", options_body, strategy=lambda: case(mmax=4), quick=200, thorough=4000, pretags=pretags),
+        Sub("ode", body, strategy=lambda: case(allow_r=True), quick=400, thorough=20000, pretags=pretags),
+        Sub("constant", constant_body, strategy=lambda: case(force_m=1, allow_r=False), quick=200, thorough=12000, pretags=pretags),
+        Sub("refine", refine_body, strategy=refine_case, quick=400, thorough=15000, pretags=pretags),
+        Sub("options", options_body, strategy=lambda: case(mmax=4), quick=200, thorough=12000, pretags=pretags),
     ]
